@@ -1330,3 +1330,19 @@ V("C15-D16-reintroduced", "C15", "D16 re-introduced: DictProxy entry paths from 
             return "%s.%s[%s]" % (owner_path, self.dict_field._key, key)
         return "%s[%s]" % (self.dict_field._ref_path, key)""",
   """        return "%s[%s]" % (self.dict_field._ref_path, key)""", expect_rule="path.proxy-uses-owner-path")
+V("C03-D18-reintroduced", "C03", "D18 re-introduced: loading replaces a sub-configuration and forgets its own key file", CORE,
+  """            previous = self._data.get(key)
+            if isinstance(previous, Config) and previous.__keyfile and not cfg.__keyfile:
+                # the sub-configuration being replaced named its own key file: its secrets were
+                # encrypted with that key, so the new sub-configuration keeps using it
+                cfg.__keyfile = previous.__keyfile
+""", "", expect_rule="keyfile.survives-replacement")
+V("C03-D18-after-load", "C03", "key file taken over only after the nested map was decrypted", CORE,
+  """                cfg.__keyfile = previous.__keyfile
+            cfg.load_tree(value)  # load_tree will raise a ValidationError on error
+            value = cfg""",
+  """                pass
+            cfg.load_tree(value)  # load_tree will raise a ValidationError on error
+            if isinstance(previous, Config) and previous.__keyfile:
+                cfg.__keyfile = previous.__keyfile
+            value = cfg""", expect_rule="keyfile.survives-replacement")
